@@ -139,9 +139,10 @@ class FormatterBench:
         self.ev = self.world.ev
         self.ev.max_steps = 400000
 
-    def error(self, name="TOO_MANY_LINES", text_=None, level="Error", positions=((1, 1),)):
+    def error(self, name="TOO_MANY_LINES", text_=None, level="Error", positions=((1, 1),), hints=()):
         ev = self.ev
-        hls = [ev.instantiate("Highlight", list(p), {}) for p in positions]
+        hls = [ev.instantiate("Highlight", list(p), {"hint": hints[i]} if i < len(hints) and hints[i] else {})
+               for i, p in enumerate(positions)]
         if text_ is None:
             return ev.call_value(ev.getattr(ClassRef("Error"), "from_name"), [name], {"level": level, "highlights": hls})
         return ev.instantiate("Error", [name, text_], {"level": level, "highlights": hls})
@@ -201,11 +202,13 @@ def formatter_verdict_source(prog, cname) -> Tuple[bool, str, int]:
 FILES = {
     "clean.c": "int a;\n", "notice.c": "int a; @N\n", "error.h": "@E\n", "mixed.c": "@N then @E\n",
     "notice2.h": "@N @N\n", "errors2.c": "@E @E\n", "fatal_l.c": "@L\n", "fatal_p.h": "@E @F\n",
+    # a byte that is not UTF-8: the text cannot even be read (fatal before the lexer starts)
+    "fatal_r.c": "int a; /* \udce9 */\n",
     # a source and its header share the stem: nothing may be keyed by File.name
     "twin.c": "@E\n", "twin.h": "int a;\n",
 }
 CORE = ("clean.c", "notice.c", "error.h", "mixed.c")
-FATAL = ("fatal_l.c", "fatal_p.h")
+FATAL = ("fatal_l.c", "fatal_p.h", "fatal_r.c")
 
 
 def want_status(name: str) -> str:
